@@ -5,6 +5,7 @@
    py_int is the executable model of CPython's int() that the extracted model runs with. *)
 From Coq Require Import ZArith NArith List Bool.
 From PydoctorVerif Require Import Base.Sexp Model.Inventory Spec.InventorySpec Proofs.InventoryProofs.
+From PydoctorVerif Require Import Model.InventoryIR Gen.InventoryCode Proofs.InventoryIRProofs.
 Import ListNotations.
 Local Open Scope N_scope.
 
@@ -111,6 +112,34 @@ Theorem C17_getlink_dollar :
                  get_link links name = Some (base ++ [47] ++ rel)) /\
     (lookup name links = None \/ lookup name links = Some (base, []) -> get_link links name = None).
 Proof. exact getlink_all. Qed.
+
+(* ------------------------------------------------------------------------------------------------ tie to the source *)
+(* Gen/InventoryCode.v is written on every run by harness/gen/gen_c17_code.py from the CURRENT pydoctor/sphinx.py: the
+   bodies of _parseInventoryLine and SphinxInventory.getLink, statement by statement, in the language of
+   Model/InventoryIR.v.  Interpreting THAT code gives, for every line and every behaviour of int() (resp. every map and
+   name), exactly the result of the hand model the theorems of this file are about. *)
+Theorem C17_code_parse_line_is_model :
+  forall (int_of : text -> option Z) (line : text),
+    parse_line_ir code_parse_line int_of line = result_of_columns (parse_line int_of line).
+Proof. exact parse_line_ir_eq. Qed.
+
+Theorem C17_code_get_link_is_model :
+  forall (links : dict) (name : text),
+    get_link_ir code_get_link links name = result_of_link (get_link links name).
+Proof. exact get_link_ir_eq. Qed.
+
+(* hence C17_parse_total stated on the translated code: never IndexError, never stuck, never out of fuel *)
+Theorem C17_code_parse_total :
+  forall (int_of : text -> option Z) (line : text),
+    (exists v, parse_line_ir code_parse_line int_of line = RReturn v) \/
+    parse_line_ir code_parse_line int_of line = RRaise ValueError.
+Proof. exact code_parse_total. Qed.
+
+Theorem C17_code_get_link_returns :
+  forall (links : dict) (name : text),
+    get_link_ir code_get_link links name = RReturn VNone \/
+    exists u, get_link_ir code_get_link links name = RReturn (VStr u).
+Proof. exact code_get_link_returns. Qed.
 
 (* ------------------------------------------------------------------------------------------------ round trip *)
 
